@@ -231,6 +231,8 @@ def run_line(state, sx):
 def compare(case, i, line, ir, mr):
     if proto.same_reply(ir, mr):
         return None
+    if mr == 'bad-op':
+        return ('divergence', 'the model does not cover this line (malformed or out of scope): implementation %s' % ir)
     sx = proto.parse(line)
     op = sx[1]
     ordered = case.get('ordered', _ordered(case))
